@@ -11,8 +11,11 @@ import (
 	"math/rand/v2"
 	"os"
 	"path/filepath"
+	"runtime"
 	"sort"
+	"strings"
 	"testing"
+	"time"
 
 	"github.com/nspcc-dev/neofs-node/internal/verifkit"
 	"github.com/nspcc-dev/neofs-node/pkg/local_object_storage/blobstor/fstree"
@@ -239,6 +242,104 @@ type vf46Case struct {
 	IgnoreErrors bool   `json:"ignore_errors"`
 	BadRecords   []int  `json:"undecodable_records"`
 	Flipped      []int  `json:"payload_flipped_records"`
+	// mode change request issued while the dump is being streamed ("" = none)
+	OpTarget  string `json:"mode_change_target,omitempty"`
+	OpAtWrite int    `json:"mode_change_at_write,omitempty"`
+	OpOutcome string `json:"mode_change_outcome,omitempty"`
+}
+
+// ---- dump sink with an "operator" who asks for a mode change while the dump is streamed ----
+//
+// The statement promises that restoring a dump reproduces the dumped shard; a dump that was
+// reported as successful therefore has to hold every object of the shard, whatever else is
+// requested from the shard while it is streamed.  vf46Sink is the io.Writer handed to Dump.
+// On its atWrite-th Write call (0 = the magic) it issues Shard.SetMode(target) from another
+// goroutine, exactly like a control request that arrives in the middle of a long dump.
+//
+// The interleaving is built from logical conditions only, never from elapsed time:
+//   - the request is issued from inside Write, i.e. at a known point of the dump;
+//   - the sink waits for the request to COMPLETE only when it can complete without the dump
+//     making progress: the shard's mode lock is free (probed with TryLock; while a dump holds
+//     it the request simply stays pending until Dump returns, as on the unchanged tree) and
+//     the calling stack is not inside the write-cache iteration (which holds the cache's own
+//     mode lock until it ends);
+//   - otherwise the request stays pending and is joined after Dump returned.
+//
+// The watchdog only guards the harness against a hang and yields Inconclusive.
+type vf46Sink struct {
+	bytes.Buffer
+	sh      *Shard
+	target  mode.Mode
+	atWrite int
+
+	writes   int
+	issued   bool
+	lockFree bool // the mode lock could be taken at the moment of the request
+	inWC     bool // the request was issued from inside the write-cache iteration
+	awaited  bool // the request completed before the Write call returned
+	hung     bool
+	done     chan error
+	result   error
+}
+
+const vf46Watchdog = 5 * time.Minute
+
+func (w *vf46Sink) Write(p []byte) (int, error) {
+	if w.sh != nil && !w.issued && w.writes == w.atWrite {
+		w.issue()
+	}
+	w.writes++
+	return w.Buffer.Write(p)
+}
+
+func (w *vf46Sink) issue() {
+	w.issued = true
+	// A background worker may hold the lock for an instant; a dump holds it until it returns.
+	for i := 0; i < 50 && !w.lockFree; i++ {
+		if w.sh.m.TryLock() {
+			w.sh.m.Unlock()
+			w.lockFree = true
+		} else {
+			runtime.Gosched()
+		}
+	}
+	w.inWC = vf46InsideWriteCache()
+	w.done = make(chan error, 1)
+	go func(sh *Shard, m mode.Mode, done chan<- error) { done <- sh.SetMode(m) }(w.sh, w.target, w.done)
+	if w.lockFree && !w.inWC {
+		w.join()
+		w.awaited = !w.hung
+	}
+}
+
+// join waits until the mode change request returned.
+func (w *vf46Sink) join() {
+	if !w.issued || w.done == nil {
+		return
+	}
+	select {
+	case w.result = <-w.done:
+		w.done = nil
+	case <-time.After(vf46Watchdog):
+		w.hung = true
+	}
+}
+
+// vf46InsideWriteCache reports whether the calling goroutine is currently inside a function of
+// the write-cache package (the dump handler is then called back from Cache.Iterate).
+func vf46InsideWriteCache() bool {
+	pcs := make([]uintptr, 64)
+	n := runtime.Callers(2, pcs)
+	frames := runtime.CallersFrames(pcs[:n])
+	for {
+		f, more := frames.Next()
+		if strings.Contains(f.Function, "/writecache.") {
+			return true
+		}
+		if !more {
+			return false
+		}
+	}
 }
 
 type vf46Outcome struct {
@@ -400,7 +501,7 @@ func vf46SizeClass(n int) string {
 func TestVerif_C46(t *testing.T) {
 	r := verifkit.Start(t, "C46", "exploration")
 	defer r.Finish()
-	r.SetRule("case = random shard content (0..14 objects, payload 0 B..300 KiB, 1..3 containers, with/without write-cache, dumped in read-only or degraded-read-only) -> Dump -> optional corruption of some records (undecodable head / payload byte flip) -> Restore into an empty shard through a reader mode {full, short(random<=maxChunk), onebyte, halves, dataerr}; distinct = (reader, maxChunk class, src wc, dst wc, ignoreErrors, #undecodable>0, #flipped>0, size-class set); non-trivial = at least one object")
+	r.SetRule("case = random shard content (0..14 objects, payload 0 B..300 KiB, 1..3 containers, with/without write-cache, dumped in read-only or degraded-read-only) -> Dump (in every second case a SetMode request to read-write/degraded/other read-only mode is issued from inside the dump's io.Writer at write call 0 or a random later one; awaited only if the mode lock is free) -> optional corruption of some records (undecodable head / payload byte flip) -> Restore into an empty shard through a reader mode {full, short(random<=maxChunk), onebyte, halves, dataerr}; distinct = (reader, maxChunk class, src wc, dst wc, mode change target + at-magic/later, ignoreErrors, #undecodable>0, #flipped>0, size-class set); non-trivial = at least one object")
 	r.Assume("the neofs-sdk-go object codec is the trusted decoder used by the reference dump parser")
 	r.Assume("dump framing as documented in shard/dump.go: magic NEOF followed by (u32 little-endian size, body) records")
 
@@ -432,6 +533,37 @@ func TestVerif_C46(t *testing.T) {
 			dumpMode = mode.DegradedReadOnly
 		}
 		c.DumpMode = dumpMode.String()
+		// Every second case gets a mode change request during the dump (own random stream:
+		// the other dimensions of a case do not depend on it).  Two thirds of the requests
+		// arrive with the very first Write (the magic, i.e. before any object was visited),
+		// the others at a random later Write.
+		var opTarget mode.Mode
+		opAt := -1
+		if ci%2 == 1 {
+			org := r.Rand("operator", ci)
+			switch org.IntN(6) {
+			case 0, 1, 2:
+				opTarget = mode.ReadWrite
+			case 3, 4:
+				opTarget = mode.Degraded
+			default:
+				opTarget = mode.DegradedReadOnly
+				if dumpMode == mode.DegradedReadOnly {
+					opTarget = mode.ReadOnly
+				}
+			}
+			opAt = 0
+			if (ci/2)%3 == 2 {
+				opAt = 1 + org.IntN(30)
+			}
+			c.OpTarget, c.OpAtWrite = opTarget.String(), opAt
+			if opAt == 0 {
+				// the request races with the decision what to iterate: make sure the source has
+				// a write-cache (whether objects are still in it is up to the flusher and the
+				// explicit flush below)
+				c.SrcWC = true
+			}
+		}
 
 		// ---- content ----
 		nObj := rng.IntN(15)
@@ -490,41 +622,97 @@ func TestVerif_C46(t *testing.T) {
 				r.Inconclusive(fmt.Sprintf("case %d: source SetMode(%s) failed: %v", ci, dumpMode, err))
 				return
 			}
-			var buf bytes.Buffer
+			// evidence only: objects that live in the write-cache alone at the moment of the dump
+			unflushed := 0
+			if c.SrcWC {
+				unflushed = vf46CountBlobFiles(filepath.Join(dir, "src", "wcache"))
+				if unflushed > 0 {
+					r.Count("dumps_with_unflushed_wc_objects", 1)
+				}
+			}
+			buf := &vf46Sink{target: opTarget, atWrite: opAt}
+			if opAt >= 0 {
+				buf.sh = src.sh
+			}
 			var n int
 			var derr error
-			if r.Guard(c, func() { n, derr = src.sh.Dump(&buf, false) }) {
+			panicked := r.Guard(c, func() { n, derr = src.sh.Dump(buf, false) })
+			buf.join() // a request that had to wait for the dump returns now
+			if buf.hung {
+				r.Inconclusive(fmt.Sprintf("case %d: mode change request issued at write %d of the dump did not return (watchdog)", ci, opAt))
+				return
+			}
+			if panicked {
 				return
 			}
 			r.Count("dumps", 1)
+			underOp := ""
+			if buf.issued {
+				if buf.lockFree {
+					// only then the request can have had any effect on the running dump
+					underOp = "|mode-change-during-dump"
+				}
+				r.Count("mode_change_requests_during_dump", 1)
+				r.Seen("mode_change_targets", c.OpTarget)
+				switch {
+				case !buf.lockFree:
+					c.OpOutcome = "excluded-by-dump(mode lock held)"
+				case buf.awaited && buf.result == nil:
+					c.OpOutcome = "applied-during-dump"
+				case buf.awaited:
+					c.OpOutcome = "refused-during-dump"
+				default:
+					c.OpOutcome = "pending-until-iteration-end"
+				}
+				if buf.inWC {
+					r.Count("mode_change_requests_inside_wc_iteration", 1)
+				}
+				if opAt == 0 && unflushed > 0 && !opTarget.ReadOnly() {
+					r.Count("mode_change_before_wc_iteration_with_unflushed_objects", 1)
+				}
+				r.Seen("mode_change_outcomes", c.OpOutcome)
+				if got := src.sh.GetMode(); buf.result == nil && got != opTarget {
+					r.Inconclusive(fmt.Sprintf("case %d: SetMode(%s) returned nil but the shard is in mode %s", ci, opTarget, got))
+					return
+				}
+			} else if opAt >= 0 {
+				r.Count("mode_change_requests_not_reached", 1) // fewer Write calls than atWrite
+			}
+			if derr != nil && buf.issued && buf.lockFree {
+				// The mode was really changed (or attempted) under the running dump and the dump
+				// REPORTED a failure: the statement only speaks about dumps that were produced.
+				r.Count("dumps_failed_under_mode_change", 1)
+				r.Seen("dump_errors_under_mode_change", vf46ErrClass(derr))
+				return
+			}
 			if derr != nil {
-				r.Violation("dump|error-on-healthy-shard", fmt.Sprintf("Dump of a healthy %s shard failed: %v", dumpMode, derr), c)
+				r.Violation("dump|error-on-healthy-shard"+underOp, fmt.Sprintf("Dump of a healthy %s shard failed: %v", dumpMode, derr), c)
 				return
 			}
 			recs, perr := vf46ParseDump(buf.Bytes())
 			if perr != nil {
-				r.Violation("dump|malformed-stream", fmt.Sprintf("Dump output does not follow the documented framing: %v", perr), c)
+				r.Violation("dump|malformed-stream"+underOp, fmt.Sprintf("Dump output does not follow the documented framing: %v", perr), c)
 				return
 			}
 			r.Count("dump_records", len(recs))
 			r.Count("dump_bytes", buf.Len())
 			if n != len(recs) {
-				r.Violation("dump|count-mismatch", fmt.Sprintf("Dump reported %d objects, stream holds %d records", n, len(recs)), c)
+				r.Violation("dump|count-mismatch"+underOp, fmt.Sprintf("Dump reported %d objects, stream holds %d records", n, len(recs)), c)
 			}
 			// the dump must hold exactly the stored objects, byte-identical
 			inDump := map[oid.Address]struct{}{}
 			for i, rc := range recs {
 				if !rc.valid {
-					r.Violation("dump|undecodable-record", fmt.Sprintf("record %d of a fresh dump does not decode", i), c)
+					r.Violation("dump|undecodable-record"+underOp, fmt.Sprintf("record %d of a fresh dump does not decode", i), c)
 					return
 				}
 				body, ok := want[rc.addr]
 				if !ok {
-					r.Violation("dump|foreign-record", fmt.Sprintf("dump holds %s which was never stored", rc.addr), c)
+					r.Violation("dump|foreign-record"+underOp, fmt.Sprintf("dump holds %s which was never stored", rc.addr), c)
 					return
 				}
 				if !bytes.Equal(body, rc.body) {
-					r.Violation("dump|bytes-differ", fmt.Sprintf("dump record %s differs from the stored object", rc.addr), c)
+					r.Violation("dump|bytes-differ"+underOp, fmt.Sprintf("dump record %s differs from the stored object", rc.addr), c)
 					return
 				}
 				inDump[rc.addr] = struct{}{}
@@ -534,7 +722,7 @@ func TestVerif_C46(t *testing.T) {
 				if c.SrcWC {
 					where = "wc"
 				}
-				r.Violation("dump|object-missing|src="+where, fmt.Sprintf("dump holds %d of %d stored objects", len(inDump), len(want)), c)
+				r.Violation("dump|object-missing|src="+where+underOp, fmt.Sprintf("Dump returned nil error but holds %d of %d stored objects%s", len(inDump), len(want), vf46OpText(c)), c)
 				return
 			}
 			if len(recs) != len(want) {
@@ -607,7 +795,7 @@ func TestVerif_C46(t *testing.T) {
 					keys = append(keys, k)
 				}
 				sort.Strings(keys)
-				r.Distinct(fmt.Sprintf("%s|%d|%v|%v|%v|%v|%v|%v", c.Reader, c.MaxChunk, c.SrcWC, c.DstWC, c.IgnoreErrors, len(c.BadRecords) > 0, len(c.Flipped) > 0, keys))
+				r.Distinct(fmt.Sprintf("%s|%d|%v|%v|%s@%v|%v|%v|%v|%v", c.Reader, c.MaxChunk, c.SrcWC, c.DstWC, c.OpTarget, opAt == 0, c.IgnoreErrors, len(c.BadRecords) > 0, len(c.Flipped) > 0, keys))
 				r.Sample(c)
 			}
 			if out == nil {
@@ -639,6 +827,28 @@ func TestVerif_C46(t *testing.T) {
 	if r.Counter("reader_short_returns") == 0 {
 		r.Inconclusive("no short read was ever delivered to Restore")
 	}
+	if r.Counter("mode_change_before_wc_iteration_with_unflushed_objects") == 0 {
+		r.Inconclusive("no mode change request ever met a dump of a shard whose write-cache still held objects")
+	}
+}
+
+// vf46CountBlobFiles counts the object files below an FSTree root (evidence counters only).
+func vf46CountBlobFiles(root string) int {
+	n := 0
+	_ = filepath.Walk(root, func(_ string, fi os.FileInfo, err error) error {
+		if err == nil && fi.Mode().IsRegular() && !strings.HasPrefix(fi.Name(), ".") {
+			n++
+		}
+		return nil
+	})
+	return n
+}
+
+func vf46OpText(c vf46Case) string {
+	if c.OpOutcome == "" {
+		return ""
+	}
+	return fmt.Sprintf(" (SetMode(%s) requested at write call %d of the dump: %s)", c.OpTarget, c.OpAtWrite, c.OpOutcome)
 }
 
 func (c *vf46Case) sizeOf(_ map[oid.Address][]byte, objs []*object.Object, a oid.Address) int {
